@@ -272,7 +272,32 @@ int main(int argc, char **argv) {
        << ",\"noreturn\":" << (F.doesNotReturn() ? "true" : "false")
        << ",\"varargs\":" << (F.isVarArg() ? "true" : "false")
        << ",\"ret_ty\":" << q(tyStr(F.getReturnType())) << ",\"ret_bits\":" << bitsOf(F.getReturnType(), DL);
-    if (DISubprogram *sp = F.getSubprogram()) os << ",\"file\":" << q(sp->getFilename()) << ",\"line\":" << sp->getLine();
+    if (DISubprogram *sp = F.getSubprogram()) {
+      os << ",\"file\":" << q(sp->getFilename()) << ",\"line\":" << sp->getLine();
+      // which pointer parameters point to const-qualified data (from the subroutine type)
+      if (DISubroutineType *stt = sp->getType()) {
+        DITypeRefArray ta = stt->getTypeArray();
+        os << ",\"param_const\":[";
+        for (unsigned k = 1; k < ta.size(); k++) {
+          if (k > 1) os << ",";
+          DIType *t = ta[k];
+          bool isconst = false;
+          while (t && isa<DIDerivedType>(t) && cast<DIDerivedType>(t)->getTag() == dwarf::DW_TAG_typedef) t = cast<DIDerivedType>(t)->getBaseType();
+          if (auto *pt = dyn_cast_or_null<DIDerivedType>(t)) {
+            if (pt->getTag() == dwarf::DW_TAG_pointer_type) {
+              DIType *b = pt->getBaseType();
+              while (b && isa<DIDerivedType>(b)) {
+                auto *bd = cast<DIDerivedType>(b);
+                if (bd->getTag() == dwarf::DW_TAG_const_type) { isconst = true; break; }
+                if (bd->getTag() == dwarf::DW_TAG_typedef || bd->getTag() == dwarf::DW_TAG_volatile_type) b = bd->getBaseType(); else break;
+              }
+            }
+          }
+          os << (isconst ? "true" : "false");
+        }
+        os << "]";
+      }
+    }
     os << ",\"params\":[";
     for (Argument &a : F.args()) {
       if (a.getArgNo()) os << ",";
